@@ -49,13 +49,17 @@ FR = {'q1': [(1, 2), (3, 5)], 'q1min': [(1, 10), (1, 4)], 'qdiff': [(7, 10), (1,
       'fold': [(1, 1), (2, 1)], 'foldmin': [(4, 5), (1, 2)]}
 
 
-def gen_reference(rng):
+def gen_reference(rng, wide=False):
     ncl = rng.randint(2, 5)
     ng = rng.randint(3, 9)
+    if wide:
+        # 12-14 well separated clusters of 5-6 cells over 9 genes: more than 100 up and more than 100 down entries,
+        # so that a tiny memory budget makes the gene-major table be assembled from several load chunks
+        ncl, ng = rng.randint(12, 14), 9
     clusters = []
     for k in range(ncl):
-        n = rng.choice([1, 2, 2, 3, 4, 5, 6])
-        on = set(rng.sample(range(ng), rng.randint(0, min(3, ng))))
+        n = rng.choice([1, 2, 2, 3, 4, 5, 6]) if not wide else rng.randint(5, 6)
+        on = set(rng.sample(range(ng), rng.randint(0, min(3, ng)) if not wide else rng.randint(2, 4)))
         cells = []
         for _ in range(n):
             row = []
@@ -74,6 +78,10 @@ def gen_reference(rng):
     T = {k: rng.choice(v) for k, v in FR.items()}
     T['pth'] = rng.choice([UNIT // 100, UNIT // 20])
     exact = rng.random() < 0.4
+    if wide:
+        conf = {'T': T, 'exact': exact, 'n_valid': 30, 'gene_list': None, 'P': rng.randint(1, 3),
+                'max_gb': rng.choice([1e-6, 1e-7]), 'pad_list': False}
+        return {'clusters': clusters, 'ng': ng, 'conf': conf, 'two_level': rng.random() < 0.5}
     if rng.random() < 0.25:
         # a clearly significant gene whose penetrance sits exactly on the strict threshold q1 = c/d:
         # cluster 0 has d*m cells, the gene is expressed (value 5..6) in exactly c*m of them and absent elsewhere
@@ -330,7 +338,7 @@ def run(ctx):
     if ctx.only in (None, 'c2s'):
         wd = str(ctx.tmpdir('c11_'))
         n = 80 if quick else 800
-        refs = [gen_reference(rng) for _ in range(n)]
+        refs = [gen_reference(rng, wide=(i % 27 == 5)) for i in range(n)]
         with cf.ProcessPoolExecutor(max_workers=8) as ex:
             outs = list(ex.map(_case, [(r, wd) for r in refs]))
         recs, owners = [], []
